@@ -393,7 +393,17 @@ def _work(args):
     rr = random.Random(f'{seed}:route:{family}:{k}')
     r_ = rr.random()
     route = 'run' if r_ < 0.3 else ('global' if r_ < 0.4 else ('full_over_poisoned' if r_ < 0.5 else 'stepwise'))
-    if rr.random() < 0.12:
+    if rr.random() < 0.06 and family in ('synth', 'multi', 'chain', 'exact', 'interleave', 'split', 'drift'):
+        # another height scaling for the slicing, set the only way it can be set: by editing the global dictionary
+        route = 'global'
+        mode_ = rr.choice(['shift-and-scale', 'step-scale', 'step-scale'])
+        kw_ = {'scale': rr.choice([1000, 250.0])} if mode_ == 'shift-and-scale' else \
+            rr.choice([{'steps': [8000, 14000], 'scales': [100, 500, 1000]}, {'steps': [3000], 'scales': [50, 400]},
+                       {'steps': [], 'scales': [200]}])
+        prms = dict(prms)
+        prms['SLICING_PRMS'] = dict(prms.get('SLICING_PRMS', {}), height_scale_mode=mode_, height_scale_kwargs=scenes.Replace(kw_))
+        meta['slicing_height_scale_mode'] = mode_
+    elif rr.random() < 0.12:
         prms = scenes.numpy_typed(prms, rr)          # parameter values as NumPy scalars
         meta['numpy_typed_prms'] = True
     meta['route'] = route
@@ -420,6 +430,7 @@ def _work(args):
         return {'meta': meta, 'harness_error': f'{type(e).__name__}: {e}'}
     out = {'meta': meta, 'exc': obs['exc'], 'stage': obs['stage'], 'exc_msg': obs.get('exc_msg'), 'eff_mismatch': obs.get('eff_mismatch'), 'impure_queries': obs.get('impure_queries'),
            'stats': dict(scenes.scene_stats(obs), **{'index_' + ikind: 1, 'route_' + route: 1, 'numpy_typed_prms': int(bool(meta.get('numpy_typed_prms'))),
+                                                       'slicing_mode_' + str(meta.get('slicing_height_scale_mode')): 1,
                                                        'mixture_answers_distorted': int(fuzz is not None and not fuzz.endswith('+cluster')),
                                                        'clustering_answers_distorted': int(fuzz is not None and fuzz.endswith('+cluster')),
                                                        'frame_variant_' + str(meta.get('frame_variant')): 1}), 'req': None, 'missing': obs['trace'].missing,
